@@ -36,6 +36,7 @@ def epsilon_tensor(i, j, k):
     if not (test_set <= set((1, 2, 3)) or test_set <= set((0, 1, 2))):
         raise ValueError("Unexpected input", i, j, k)
 
+    i, j, k = int(i), int(j), int(k)
     return (i - j) * (j - k) * (k - i) / 2
 
 
@@ -54,6 +55,7 @@ def epsilon_tensor_rank4(i, j, k, o):
     if not (test_set <= set((1, 2, 3, 4)) or test_set <= set((0, 1, 2, 3))):
         raise ValueError("Unexpected input", i, j, k, o)
 
+    i, j, k, o = int(i), int(j), int(k), int(o)
     return (i - j) * (j - k) * (k - i) * (i - o) * (j - o) * (o - k) / 12
 
 
